@@ -53,4 +53,35 @@ static void *vp_realloc_backend(void *p, size_t sz)
 	__CPROVER_assume(q != NULL);
 	return q;
 }
+/* signal.c / signalfd.c: the saved dispositions (struct sigaction, one per signal) and the sh_old pointer
+ * table, typed.  Before #include "signal.c":
+ *     #define mm_malloc(sz) vp_malloc_signal((sz))
+ *     #define mm_realloc(p, sz) vp_realloc_signal((p), (sz))
+ * The table may grow (a second, higher signal number): old entries are copied element-wise. */
+#include <signal.h>
+static size_t vp_shold_n;
+static void *vp_malloc_signal(size_t sz)
+{
+	void *q;
+	vp_alloc_calls++;
+	if (sz == sizeof(struct sigaction)) q = malloc(sizeof(struct sigaction));
+	else q = malloc(sz);
+	__CPROVER_assume(q != NULL);
+	return q;
+}
+static void *vp_realloc_signal(void *p, size_t sz)
+{
+	size_t n = sz / sizeof(struct sigaction *), i;
+	struct sigaction **q, **old = p;
+	vp_alloc_calls++;
+	VP_ASSERT(sz % sizeof(struct sigaction *) == 0 && n >= 1 && n <= 65, "harness: sh_old table request of an unexpected size");
+	q = malloc(n * sizeof(struct sigaction *));
+	__CPROVER_assume(q != NULL);
+	if (old) {
+		for (i = 0; i < 65; i++) if (i < vp_shold_n && i < n) q[i] = old[i];
+		free(old);
+	}
+	vp_shold_n = n;
+	return q;
+}
 #endif
